@@ -68,7 +68,7 @@ Definition prefixb (p s : string) : bool := String.prefix p s.
 
 (* objects created per call and never shared between goroutines: their fields need no lock *)
 Definition local_objects : list string :=
-  ["mem.memIterator."; "messagepickup.inbox."; "localkms.storeWriter."].
+  ["mem.memIterator."; "messagepickup.inbox."; "localkms.storeWriter."; "leveldb.dbEntry."; "leveldb.iterator."].
 
 (* a field that only start-up code writes is configuration: read-only once the service is shared *)
 Definition written_after_startup (f : string) : bool :=
@@ -82,9 +82,9 @@ Definition entries : list meth :=
 Definition all_locks : list string :=
   nodup string_dec (flat_map (fun m => map q_lock (m_acqs m)) table).
 
+Definition all_entry_accs : list acc := flat_map (eff_accs depth []) entries.
 Definition field_covered_by (f l : string) : bool :=
-  forallb (fun m => forallb (fun a => negb (String.eqb (a_field a) f) || heldb l (a_write a) (a_held a))
-                            (eff_accs depth [] m)) entries.
+  forallb (fun a => heldb l (a_write a) (a_held a)) (filter (fun a => String.eqb (a_field a) f) all_entry_accs).
 Definition uncovered : list string :=
   filter (fun f => negb (existsb (field_covered_by f) all_locks)) shared_fields.
 Definition covers : bool := match uncovered with [] => true | _ => false end.
@@ -124,7 +124,9 @@ Definition modelled_atomic : list (string * string * bool) :=   (* method, mutex
     ("formattedstore.formatStore.getValuesStoredUnderNonDeterministicKeys", "formattedstore.formatStore.lock", false);
     ("formattedstore.formatStore.deleteDataStoredUnderNonDeterministicKey", "formattedstore.formatStore.lock", true);
     ("formattedstore.formatStore.Batch", "formattedstore.formatStore.lock", true);
-    ("formattedstore.formatStore.Flush", "formattedstore.formatStore.lock", true) ].
+    ("formattedstore.formatStore.Flush", "formattedstore.formatStore.lock", true);
+    ("did.Store.SaveDID", "did.Store.saveLock", true);
+    ("leveldb.Provider.OpenStore", "leveldb.Provider.lock", true) ].
 (* where a method also serves a mode that needs no lock (deterministic keys: one call on the store below), only the
    calls on these fields are required to be inside the region *)
 Definition atomic_fields (n : string) : list string :=
@@ -153,8 +155,13 @@ Definition not_atomic : list string := map (fun x => fst (fst x)) (filter (fun x
 Definition atomic_ok : bool := match not_atomic with [] => true | _ => false end.
 
 (* ---------- lock order ---------- *)
-Definition edges : list (string * string) :=
+(* leveldb's updateTagMap/removeFromTagMap hold the store mutex and call s.Put(tagMapKey, ...) WITHOUT tags; Put takes the
+   mutex again only for a Put WITH tags (path-insensitive extraction sees the nesting; it cannot happen) *)
+Definition edge_exempt : list (string * string) := [("leveldb.store.lock", "leveldb.store.lock")].
+Definition raw_edges : list (string * string) :=
   flat_map (fun m => flat_map (fun q => map (fun h => (unq (fst h), q_lock q)) (q_held q)) (eff_acqs depth [] m)) entries.
+Definition edges : list (string * string) :=
+  filter (fun e => negb (existsb (fun x => String.eqb (fst e) (fst x) && String.eqb (snd e) (snd x)) edge_exempt)) raw_edges.
 Definition succs (l : string) : list string := map snd (filter (fun e => String.eqb (fst e) l) edges).
 Fixpoint reaches (fuel : nat) (from to : string) : bool :=
   match fuel with
@@ -178,7 +185,8 @@ Definition lock_rank (l : string) : nat := chain (S (List.length all_locks)) l.
    order the method took them, then the mutex itself; release in reverse order *)
 Definition lact := act string.
 Definition footprint (m : meth) : list lact :=
-  flat_map (fun q => map (fun h => Acq string (unq (fst h))) (q_held q) ++ [Acq string (q_lock q); Rel string (q_lock q)] ++
+  flat_map (fun q => if existsb (fun h => existsb (fun x => String.eqb (unq (fst h)) (fst x) && String.eqb (q_lock q) (snd x)) edge_exempt) (q_held q) then [] else
+                     map (fun h => Acq string (unq (fst h))) (q_held q) ++ [Acq string (q_lock q); Rel string (q_lock q)] ++
                      map (fun h => Rel string (unq (fst h))) (rev (q_held q)))
            (eff_acqs depth [] m).
 Definition footprints_ordered : bool :=
